@@ -34,6 +34,8 @@ RawPayloads ==
      in_u  |-> Tx("r9", "bob", 1, "none"),
      \* the service itself as recipient: releasing custody to itself must leave custody where it was
      in_cs |-> Tx("cS", "its", 1, "none"),
+     \* a canonical token released to a receiving contract together with data
+     in_cd |-> Tx("cS", "app", 1, "d1"),
      \* announced amounts beyond i128 (2^128 + 1, 2^127): must be refused, never credited in part
      in_big  |-> [Tx("iA1", "bob", 1, "none") EXCEPT !.mut = [kind |-> "setinner", off |-> 128,
                     bytes |-> A!Zeros(15) \o <<1>> \o A!Zeros(15) \o <<1>>]],
@@ -66,6 +68,7 @@ Acts(s) ==
     \cup {[name |-> n, chain |-> "ethereum", auth |-> {"owner0"}] : n \in {"SetTrusted", "RemoveTrusted"}}
 
 Within(s) == s.bal["iA1"]["bob"] <= (IF Small THEN 1 ELSE 2) /\ s.bal["iA1"]["app"] <= 1 /\ s.bal["iB1"]["bob"] <= 1
+             /\ s.bal[CanonName]["app"] <= 1
 InitState == [Blank("owner0") EXCEPT !.trusted["ethereum"] = TRUE,
                  !.bal[CanonName]["alice"] = 2, !.bal[CanonName]["bob"] = IF Small THEN 0 ELSE 1,
                  !.gas["alice"] = IF Small THEN 2 ELSE 3, !.gas["bob"] = IF Small THEN 0 ELSE 1]
